@@ -43,7 +43,10 @@ BOUND = {
     "<=1 edit on every base x layout x flag variant (direct driver) and on "
     "three variants end to end through main_driver --clean, each with and "
     "without --drop-water; five bases (E: atoms with template aliases); the "
-    "alias edits of bases E and D paired with every other edit",
+    "alias edits of bases E and D and the partial-disorder edits of base C "
+    "(ligand of four atoms) paired with every other edit; 8 model-numbering "
+    "/ spelling layouts (not from 1, descending, repeated, unpadded, frames "
+    "without ENDMDL) x 3 bases through both drivers",
     "thorough": "all programs of <=2 edits on every base x layout x flag "
     "variant; all programs of <=3 insert-edits on base A; all <=1-edit "
     "programs end to end on every variant",
